@@ -35,6 +35,7 @@ FilterDef(name) ==
       [] name = "k2ge1"     -> [k \in {"k2"} |-> OpF(">=", Num(10))]
       [] name = "k1star_k2" -> [k \in {"k1", "k2"} |-> IF k = "k1" THEN Pat(<<Lit("a"), Star>>) ELSE Atom(Num(10))]
       [] name = "k2is1"     -> [k \in {"k2"} |-> Atom(Num(10))]
+      [] name = "k1dict"    -> [k \in {"k1"} |-> Atom(Dict(1))]       \* a nested (dict) metadata value, matched by equality
       [] name = "skipinc"   -> [k \in {"inc"} |-> ListF(<<Atom(Bool(FALSE)), Atom(NoneV)>>)]
       [] name = "skipinc_k1a" -> [k \in {"inc", "k1"} |-> IF k = "inc" THEN ListF(<<Atom(Bool(FALSE)), Atom(NoneV)>>)
                                                           ELSE Pat(<<Lit("a")>>)]
